@@ -60,7 +60,7 @@ def edge_guards(fn, block, cache=None):
     return out
 
 
-def atoms(fn, cond, pol):
+def atoms(fn, cond, pol, inline=True):
     """decompose cond==pol into atomic (node, polarity) facts"""
     out = []
 
@@ -91,8 +91,38 @@ def atoms(fn, cond, pol):
             out.append((n, p))
             return
         out.append((n, p))
+        if k == 'CallExpr' and inline:
+            out.extend(_inline_predicate(fn, n, p))
 
     rec(cond, pol)
+    return out
+
+
+def _inline_predicate(fn, call, pol):
+    """`if (helper(a, b))` where the whole body of helper is `return <test>;`: the atoms of <test> in the caller's terms
+    (one level; free functions only).  The call atom itself is kept as well."""
+    fx = getattr(fn, 'fx', None)
+    if fx is None or not call.get('fq'):
+        return []
+    cands = [g for g in fx.fns_named(call['fq']) if g.blocks and g.f.get('unit') == fn.f.get('unit')] or \
+            [g for g in fx.fns_named(call['fq']) if g.blocks]
+    if len(cands) != 1:
+        return []
+    g = cands[0]
+    ps = g.f.get('params') or []
+    args = [a for a in (call.get('args') or []) if a is not None]
+    if len(ps) != len(args) or g is fn:
+        return []
+    expr = g.single_return_expr()
+    if expr is None:
+        return []
+    env, envr = {}, {}
+    for p_, a in zip(ps, args):
+        env[p_['vid']] = fn.render(fn.strip_all_casts(a))
+        envr[p_['vid']] = fn.render(fn.strip_all_casts(a), resolve=True)
+    out = []
+    for a, p in atoms(g, expr, pol, inline=False):
+        out.append(({'k': 'Inlined', 'fn': g, 'n': a, 'env': env, 'envr': envr, 'ln': call.get('ln'), 'col': call.get('col'), 'i': call.get('i')}, p))
     return out
 
 
@@ -119,6 +149,16 @@ def _cval(fn, x):
 
 
 def norm(fn, atom, pol, resolve=False):
+    if isinstance(atom, dict) and atom.get('k') == 'Inlined':
+        g, env = atom['fn'], (atom['envr'] if resolve else atom['env'])
+        n = g.strip(atom['n'])
+        rend = lambda x: g.render_in(g.strip_all_casts(x), env, resolve)
+        if n['k'] == 'BinaryOperator' and n['op'] in FLIP:
+            op = n['op'] if pol else NEG[n['op']]
+            a, b = rend(n['c'][0]), rend(n['c'][1])
+            av, bv = _cval(g, n['c'][0]), _cval(g, n['c'][1])
+            return (str(av) if av is not None else a, op, str(bv) if bv is not None else b)
+        return (rend(n), '!=' if pol else '==', '0')
     n = fn.strip(atom)
     if n['k'] == 'BinaryOperator' and n['op'] in FLIP:
         op = n['op'] if pol else NEG[n['op']]
